@@ -56,6 +56,8 @@ def schema_shape(js):
 
 def datum_shape(d, depth=0):
     """Value-class signature of a datum (not the values themselves)."""
+    if depth > 30:
+        return "<deep>"
     if d is None or isinstance(d, bool):
         return repr(d)
     if isinstance(d, int):
